@@ -685,16 +685,35 @@ func (m *Machine) rangeIter(x Value, t types.Type) iterator {
 		}
 		ents := append([]*mapEntry(nil), x.Entries...)
 		if m.cfg.MapOrderAll && len(ents) > 1 && !m.inInit {
-			// arbitrary permutation: pick successively
-			perm := make([]*mapEntry, 0, len(ents))
-			rest := ents
-			for len(rest) > 1 {
-				k := m.choice(len(rest))
-				perm = append(perm, rest[k])
-				rest = append(append([]*mapEntry(nil), rest[:k]...), rest[k+1:]...)
+			if m.cfg.MapOrderSeeds > 0 {
+				// a family of iteration-order assignments: one fork over the family per path, then every range
+				// starts at an offset derived from (family member, range number); member 0 is insertion order
+				if m.mapOrderSeed < 0 {
+					m.mapOrderSeed = m.choice(m.cfg.MapOrderSeeds)
+				}
+				m.mapRangeNo++
+				if m.mapOrderSeed > 0 {
+					h := uint64(m.mapOrderSeed)*0x9E3779B97F4A7C15 + uint64(m.mapRangeNo)*0xBF58476D1CE4E5B9
+					h ^= h >> 29
+					k := int(h % uint64(len(ents)))
+					ents = append(append([]*mapEntry(nil), ents[k:]...), ents[:k]...)
+				}
+			} else if m.cfg.MapOrderRotations {
+				// Go iterates a small map (one bucket, <= 8 entries) from a random offset, wrapping around
+				k := m.choice(len(ents))
+				ents = append(append([]*mapEntry(nil), ents[k:]...), ents[:k]...)
+			} else {
+				// arbitrary permutation: pick successively
+				perm := make([]*mapEntry, 0, len(ents))
+				rest := ents
+				for len(rest) > 1 {
+					k := m.choice(len(rest))
+					perm = append(perm, rest[k])
+					rest = append(append([]*mapEntry(nil), rest[:k]...), rest[k+1:]...)
+				}
+				perm = append(perm, rest[0])
+				ents = perm
 			}
-			perm = append(perm, rest[0])
-			ents = perm
 		}
 		return &mapIter{mp: x, entries: ents}
 	case Str:
